@@ -653,6 +653,7 @@ class Node(object):
         reneging_individual = self.decide_between_simultaneous_individuals()
         reneging_individual.reneging_date = float("Inf")
         next_node = self.next_node_for_jockeying(reneging_individual)
+        reneging_individual.destination = next_node.id_number
         self.individuals[reneging_individual.prev_priority_class].remove(reneging_individual)
         self.number_of_individuals -= 1
         reneging_individual.queue_size_at_departure = self.number_of_individuals
